@@ -419,6 +419,10 @@ func (g *Gen) genAtomic() Stmt {
 		val := func() Expr { return g.genExprNoSideFx(et, 2) }
 		switch name {
 		case "atomicStore":
+			if !g.on("atomic.store-expr") {
+				return &BuiltinS{B: &Builtin{Name: name, Args: []Expr{ptr, g.litOf(et)}}}
+			}
+			g.feat("atomic.store-expr")
 			return &BuiltinS{B: &Builtin{Name: name, Args: []Expr{ptr, val()}}}
 		case "atomicLoad":
 			return g.storeScalar(et, &Builtin{Name: name, Args: []Expr{ptr}, Ty: et})
